@@ -361,12 +361,36 @@ class SolvGen:
         self.val[name] = float(mexpr.evaluate(e, self.val))
         self.unknowns.append(name)
         self.alg.append(name)
-        self.eqs.append(("eq", var(name), e))
+        # (members of a chain keep the plain form, so that whole chains are eliminated)
+        will_chain = depth < 2 and r.random() < (0.35 if depth == 0 else 0.8)
+        form = "eq" if (through is not None or src.startswith("_e") or will_chain) else r.choice(
+            ["eq", "eq", "eq", "neg-lhs", "zero-lhs-minus", "zero-lhs-plus", "swapped"])
+        if form == "eq":
+            self.eqs.append(("eq", var(name), e))
+        elif form == "neg-lhs":
+            self.eqs.append(("eq", ("neg", var(name)), ("neg", e)))            # -_e = -(e)
+        elif form == "zero-lhs-minus":
+            self.eqs.append(("eq", num(0), ("bin", "-", var(name), e)))        # 0 = _e - (e)
+        elif form == "zero-lhs-plus":
+            self.eqs.append(("eq", num(0), ("bin", "+", var(name), ("neg", e))))   # 0 = _e + (-(e))
+        else:
+            self.eqs.append(("eq", e, var(name)))
+        self.tags.add("eliminable-variable:form:" + form)
         self.tags.add("eliminable-variable")
-        if depth < 2 and r.random() < (0.35 if depth == 0 else 0.8):
+        if will_chain:
             # continue the chain: the next eliminable variable is defined through this one
             self.add_eliminable(depth + 1, name)
             self.want_eliminable = True
+        elif r.random() < 0.6:
+            # the (last) eliminable variable is used by an equation that remains
+            user = "wu%d" % (sum(1 for d in self.decls if d[2].startswith("wu")) + 1)
+            c, d0 = q(r, -2, 2), q(r, -2, 2, nonzero=False)
+            self.decl(user)
+            self.val[user] = c * self.val[name] + d0
+            self.unknowns.append(user)
+            self.alg.append(user)
+            self.eqs.append(("eq", var(user), ("bin", "+", ("bin", "*", num(c) if c >= 0 else ("neg", num(-c)), var(name)), num(d0) if d0 >= 0 else ("neg", num(-d0)))))
+            self.tags.add("eliminable-variable:used-by-a-remaining-equation")
 
     def add_lookalike_literals(self):
         """two unknowns defined with literals that agree in their first six significant digits."""
